@@ -183,6 +183,27 @@ def replay(ctx: Ctx, recs: List[Dict[str, Any]]) -> None:
                                       {"path": rs[i]["path"], "strike": r0["strike"], "call": call, "start": start, "expected": exp_fn[i].item(), "observed": po2[i].item()})
 
 
+def ties_at_non_dyadic_strike(ctx: Ctx) -> None:
+    """A float64 path that touches / ends at the strike EXACTLY, for a strike float32 cannot represent (1.1): the binaries pay
+    one ("reaches the strike"), vanilla and lookback pay zero - the strike is compared in the precision of the prices."""
+    import pfhedge.nn.functional as F
+    from pfhedge.instruments import AmericanBinaryOption, BrownianStock, EuropeanBinaryOption, EuropeanOption, LookbackOption
+    K = 1.1
+    paths = torch.tensor([[1.0, K, 0.9], [1.0, 0.9, K], [K, 1.0, 0.8], [1.0, 1.05, 1.0]], dtype=torch.float64)
+    want = {"american_binary": [1.0, 1.0, 1.0, 0.0], "european_binary": [0.0, 1.0, 0.0, 0.0], "european": [0.0, 0.0, 0.0, 0.0], "lookback": [0.0, 0.0, 0.0, 0.0]}
+    fns = {"american_binary": F.american_binary_payoff, "european_binary": F.european_binary_payoff, "european": F.european_payoff, "lookback": F.lookback_payoff}
+    classes = {"american_binary": AmericanBinaryOption, "european_binary": EuropeanBinaryOption, "european": EuropeanOption, "lookback": LookbackOption}
+    for kind in want:
+        stock = BrownianStock(dt=0.25, dtype=torch.float64)
+        stock.register_buffer("spot", paths.clone())
+        outs = {"function": fns[kind](paths.clone(), call=True, strike=K), "class": classes[kind](stock, call=True, strike=K, maturity=0.5).payoff()}
+        for how, got in outs.items():
+            ctx.count(n=4)
+            if got.dtype != torch.float64 or got.tolist() != want[kind]:
+                ctx.violation(f"payoff:{kind}:tie-at-strike", f"{kind} payoff ({how}) on float64 prices that touch the strike 1.1 exactly: expected {want[kind]}",
+                              {"observed": got.tolist(), "dtype": str(got.dtype), "paths": paths.tolist()})
+
+
 def check(ctx: Ctx) -> None:
     with ThreadPoolExecutor(max_workers=6) as ex:
         results = list(ex.map(lambda c: ctx.tlc("MC_Payoff", f"MC_Payoff_{c}.cfg", workers=4), CFGS[ctx.tier]))
@@ -193,6 +214,7 @@ def check(ctx: Ctx) -> None:
             raise MachineryError(f"{res.cfg}: no record")
         recs += res.records
     replay(ctx, recs)
+    ties_at_non_dyadic_strike(ctx)
     # forward-start index over Grid.tla's (dt, k, fraction) menu: start = (k + f) dt  ->  index floor(start/dt) = k
     from pfhedge.instruments import BrownianStock, EuropeanForwardStartOption
     grid = ctx.tlc("MC_Grid", "MC_Grid_q.cfg" if ctx.tier == "quick" else "MC_Grid_t.cfg", workers=4)
